@@ -26,7 +26,7 @@ Definition is_members (v3 : bool) (k : string) : bool := v3 && String.eqb k "mem
 (* the `for base_item in base_value` loop of update_members_node for one overlay item whose
    single key is n *)
 Inductive scan_res : Type :=
-| SCrash                                             (* list(base_item)[0] on an empty OrderedDict *)
+| SCrash                                             (* unreachable since the fix of list(base_item)[0] on an empty item *)
 | SMiss                                              (* loop ends, append_olay_item stays True *)
 | SHit (pre : list yaml) (it : yaml) (post : list yaml).  (* first item whose first key is n *)
 
@@ -35,8 +35,9 @@ Fixpoint scan (n : string) (b : list yaml) : scan_res :=
   | [] => SMiss
   | it :: b' =>
       match it with
-      | YMap [] => SCrash
-      | YMap (kv :: _) =>
+      | YMap [kv] =>
+          (* `if len(base_item) == 1: base_name = list(base_item)[0]` (since fix: commit 44a61d5 in
+             /repo; before it the test was on the overlay item and an empty base item crashed) *)
           if String.eqb n (fst kv) then SHit [] it b'
           else match scan n b' with
                | SHit pre it' post => SHit (it :: pre) it' post
